@@ -1,5 +1,6 @@
 import LekkerVerif.Properties.C18
 import LekkerVerif.Properties.C03
+import LekkerVerif.Core.Subst
 
 /-! # C10 — monitors report the true internal waves and do not disturb the circuit
 
@@ -7,9 +8,10 @@ import LekkerVerif.Properties.C03
 the two, and keeps a closure that evaluates `S_matrix.int_complete` on the two partitioned matrices.
 Kernel level: the amplitudes `int_complete` returns are *the* interface waves of every solution of the
 pair (main, monitor) — uniqueness, so they are the network's waves on the monitored links.  The step
-from the pair to the whole network is the join refinement of C01 (each side's matrix is the solution
-operator of its sub-network); it is exercised end to end by the oracle run (full wave vectors of an
-independent global solve). -/
+from the pair to the whole network is `C10_network_waves`: every solution of the *whole* network, read on the
+links between the monitored and the other components, is what `int_complete` reports from the two partial
+matrices (substitution theorem of C02 applied to both sides).  End to end it is also exercised by the oracle
+run (full wave vectors of an independent global solve). -/
 
 open Matrix
 
@@ -43,3 +45,43 @@ theorem C10_linear (A : SM F n k) (B : SM F k m) (u u' : n → F) (d d' : m → 
     (Generated.intComplete A B (u + u') (d + d')).1 = (Generated.intComplete A B u d).1 + (Generated.intComplete A B u' d').1 := by
   simp only [Generated.intComplete_eq, SM.waves, Matrix.mulVec_add]
   abel
+
+
+/-- **network level**: split any circuit into the monitored part `monNet` and the rest `mainNet` (both arbitrary
+networks, with solution operators `TB`, `TA` — what the two partial merges return), joined by `links` (first end in
+the rest, second end in the monitored part); `keptA`, `keptB` are the exposed pins of the two sides.  Then for *every*
+solution `(a, b)` of the whole network — all components, all links — the pair `int_complete` computes from the two
+partial matrices and the excitation is exactly (wave leaving the rest = entering the monitored side, wave leaving
+the monitored side) on those links. -/
+theorem C10_network_waves {P : Type} [DecidableEq P] {K : Type} [Field K]
+    (mainNet monNet : ANet P K) (links : List (P × P)) (keptA keptB : List P) (TA TB : P → P → K)
+    (hA : mainNet.SolvedBy TA) (hB : monNet.SolvedBy TB)
+    (plB : ANet.Placed mainNet.parts monNet (links ++ mainNet.links) (keptA ++ keptB))
+    (plA : ANet.Placed [(monNet.exposed, TB)] mainNet links (keptA ++ keptB))
+    (pA : mainNet.exposed.Perm (keptA ++ links.map Prod.fst)) (pB : monNet.exposed.Perm (links.map Prod.snd ++ keptB))
+    (a b : P → K)
+    (hs : (ANet.inlined mainNet.parts monNet (links ++ mainNet.links) (keptA ++ keptB)).Sol a b) :
+    let kA : Fin keptA.length → P := fun i => keptA[i]
+    let kB : Fin keptB.length → P := fun i => keptB[i]
+    let cA : Fin links.length → P := fun i => links[i].1
+    let cB : Fin links.length → P := fun i => links[i].2
+    let A : SM K (Fin keptA.length) (Fin links.length) :=
+      { S21 := blk TA kA kA, S22 := blk TA kA cA, S11 := blk TA cA kA, S12 := blk TA cA cA }
+    let B : SM K (Fin links.length) (Fin keptB.length) :=
+      { S21 := blk TB cB cB, S22 := blk TB cB kB, S11 := blk TB kB cB, S12 := blk TB kB kB }
+    IsUnit (1 - A.S12 * B.S21) →
+    Generated.intComplete A B (a ∘ kA) (a ∘ kB) = (a ∘ cB, b ∘ cB) := by
+  intro kA kB cA cB A B hu
+  have hp := ANet.pair_sol_of_whole mainNet monNet links (keptA ++ keptB) TA TB hA hB plB plA a b hs
+  have eA : Eqn mainNet.exposed TA a b := hp.comp (mainNet.exposed, TA) (by simp [ANet.parent])
+  have eB : Eqn monNet.exposed TB a b := hp.comp (monNet.exposed, TB) (by simp [ANet.parent])
+  have hl : ∀ l ∈ links, a l.1 = b l.2 ∧ a l.2 = b l.1 := fun l hl => hp.link l hl
+  have he := pair_eq_abstract mainNet.exposed monNet.exposed keptA keptB links TA TB pA pB a b eA eB hl
+  have := C18_interface A B hu (a ∘ kA) (a ∘ kB) (b ∘ kA) (b ∘ kB) (b ∘ cA) (a ∘ cA) he
+  rw [this]
+  -- on a link, what leaves the rest enters the monitored side and vice versa
+  have e1 : b ∘ cA = a ∘ cB := by
+    funext i; exact ((hl links[i] (List.getElem_mem _)).2).symm
+  have e2 : a ∘ cA = b ∘ cB := by
+    funext i; exact (hl links[i] (List.getElem_mem _)).1
+  rw [e1, e2]
